@@ -86,7 +86,7 @@ func TestC06(t *testing.T) {
 		"all Get paths arise from the initial entry state (cold miss, sync update, background update, waiter); non-trivial as C01"
 
 	for i := 0; i < e.Pick(260, 3000); i++ {
-		out := GenFailover(t, e.Rng, FOpts{MinGets: 1, MaxGets: 5, Keys: 2, FailRate: 0.2, Cells: true, Skip: true, Hostile: true})
+		out := GenFailover(t, e.Rng, FOpts{MinGets: 1, MaxGets: 5, Keys: 2, FailRate: 0.2, Cells: true, Skip: true, Hostile: true, Prelude: true})
 		gets := out.Replay["gets"].([]GetSpec)
 		gi := make([]string, len(gets))
 
@@ -126,7 +126,7 @@ func TestC03(t *testing.T) {
 	cf.Rule = "complete enumeration: entry state {absent, fresh, stale within MaxStaleness, too stale} x failure cache {empty, hit} x SyncUpdate x " +
 		"FailHard x MaxStaleness {0, 1m} x FailedUpdateTTL {default, -1} x builder {ok, error} x {Failover/ShardedMap, Failover/SyncMap, " +
 		"FailoverOf/ShardedMapOf}; SyncRead off (quick) / off and on (thorough); one Get (after a failing warm-up Get when a cached failure is " +
-		"required), run to quiescence including its background build; every cell is distinct; non-trivial = not a plain fresh hit"
+		"required), run to quiescence including its background build; in 2 of 5 cells the caller's context is cancelled before the call or in the middle of the build (the table must not depend on it); every cell is distinct; non-trivial = not a plain fresh hit"
 	cf.Extra["exhaustive"] = true
 
 	type api struct{ variant, backend string }
@@ -164,14 +164,13 @@ func TestC03(t *testing.T) {
 										var (
 											term string
 											rep  map[string]any
+											gets []GetSpec
 										)
 
 										synctest.Test(t, func(t *testing.T) {
 											r := NewFEngine(t, e.Rng, conf)
 
 											defer r.Close()
-
-											var gets []GetSpec
 
 											if hit {
 												// warm-up: a failing build caches the failure
@@ -187,12 +186,25 @@ func TestC03(t *testing.T) {
 												r.Seed(key, 11, -2*time.Second-2*time.Duration(ms))
 											}
 
-											gets = []GetSpec{{Tid: 2, Key: key, Plan: BuildPlan{Ok: ok, Val: 33, Err: 9}}}
+											// the table has no column for the caller's context: a caller that has already gone away, or goes
+											// away in the middle of the build, gets the same outcome
+											g := GetSpec{Tid: 2, Key: key, Plan: BuildPlan{Ok: ok, Val: 33, Err: 9}}
+
+											switch e.Rng.Intn(5) {
+											case 0:
+												g.CancelBefore = true
+											case 1:
+												g.Plan.CancelMid = true
+											}
+
+											gets = []GetSpec{g}
 											r.Exec(gets, Policy{MaxSteps: 500})
 											term = fmt.Sprintf("FCase %s %s %s", conf.Coq(), List(r.Labels), Z(int64(r.KeyLocks())))
 											rep = map[string]any{"conf": conf, "state": st, "failureCached": hit, "builderOk": ok, "steps": r.Replay,
 												"results": r.results}
 										})
+
+										rep["get"] = gets[0]
 
 										built := "(inl 33)"
 										if !ok {
